@@ -85,6 +85,11 @@ def machine_factory(ctx):
             self.step("rej_shuffled", seed=seed, n_batches=n_batches, n_prior=n_prior)
 
         @precondition(lambda self: self.ready)
+        @rule(seed=st.integers(0, 2**31), n_batches=st.integers(2, 9), n_prior=st.integers(1, 40))
+        def rej_prefix(self, seed, n_batches, n_prior):
+            self.step("rej_prefix", seed=seed, n_batches=n_batches, n_prior=n_prior)
+
+        @precondition(lambda self: self.ready)
         @rule(factor=st.sampled_from([0.1, 3.0, 25.0]), path=st.sampled_from(["mem", "cache"]))
         def other_data(self, factor, path):
             self.step("other_data", factor=factor, path=path)
@@ -239,6 +244,23 @@ def machine_factory(ctx):
                                 "different shuffled subsets / accepted samples", object_order=idx[:10])
             self.paths_used.add(("shuffled", min(n_batches, 3)))
             self.kinds.append("rej_shuffled")
+
+        def do_rej_prefix(self, seed, n_batches, n_prior):
+            """only the first n_prior_samples rows of the library, in file order: the same rows, likelihoods and accepted
+            samples for every batching, from a file and from an object"""
+            k = max(1, min(n_prior, self.n - 1)) if self.n > 1 else 1
+            outs = []
+            for src, nb in ((self.libfile, 1), (self.libfile, n_batches), (self.lib, n_batches), (self.libfile, k + 3)):
+                joker = tj.TheJoker(self.prior, rng=np.random.default_rng(seed))
+                with ctx.sut("rejection_sample(n_prior_samples=%d, n_batches=%d)" % (k, nb)):
+                    out, lls = joker.rejection_sample(self.data, src, n_prior_samples=k, n_batches=nb, return_all_logprobs=True)
+                self._expect(lls, np.arange(k), "first %d rows of a %d-row library, n_batches=%d" % (k, self.n, nb))
+                outs.append(np.asarray(out["P"].value).tobytes())
+            if len(set(outs)) != 1:
+                raise Violation("equal seeds: rejection sampling of the first n_prior_samples rows depends on n_batches / on "
+                                "whether the library is a file or an object")
+            self.paths_used.add(("prefix", min(n_batches, 3)))
+            self.kinds.append("rej_prefix")
 
         def do_other_data(self, factor, path):
             """the same TheJoker evaluates another data set (same epochs and velocities, other uncertainties)"""
